@@ -624,6 +624,15 @@ mod routing {
 
     pub fn build<T: Sc>(d: &ModelDesc) -> Result<SeparableModel<T>, String> {
         let mut b = SeparableModelBuilder::<T>::new(&d.names);
+        // order of the builder calls varied with the description: sample locations and initial parameters last (0), provisional
+        // ones (other values, same lengths) first and the final ones last (1), the final ones before any function (2)
+        let order = (d.names.len() + d.funcs.len()) % 3;
+        let init: Vec<T> = (0..d.names.len()).map(|k| T::f(1.0 + k as f64)).collect();
+        if order == 1 {
+            b = b.independent_variable(xvec::<T>().map(|v| v + T::f(100.0))).initial_parameters(init.iter().map(|v| *v + T::f(50.0)).collect());
+        } else if order == 2 {
+            b = b.independent_variable(xvec::<T>()).initial_parameters(init.clone());
+        }
         for (j, f) in d.funcs.iter().enumerate() {
             match f {
                 None => {
@@ -649,8 +658,10 @@ mod routing {
                 }
             }
         }
-        let init: Vec<T> = (0..d.names.len()).map(|k| T::f(1.0 + k as f64)).collect();
-        b.independent_variable(xvec::<T>()).initial_parameters(init).build().map_err(|e| format!("{:?}", e))
+        if order != 2 {
+            b = b.independent_variable(xvec::<T>()).initial_parameters(init);
+        }
+        b.build().map_err(|e| format!("{:?}", e))
     }
 
     /// returns a description of the first discrepancy
